@@ -84,6 +84,16 @@ class E(A):
 def cond() -> bool: return False
 def P(f: int, i: int, *v: object) -> None: pass
 '''
+# variant 1: the final leaf E defines nothing itself and INHERITS __len__ (always 0: falsy) from a non-final base
+PRELUDE_HEAD_INHERITED = PRELUDE_HEAD.replace('''@final
+class E(A):
+    def __bool__(self) -> bool: return False
+''', '''class F(A):
+    def __len__(self) -> int: return 0
+@final
+class E(F): pass
+''')
+VARIANT_NOTE = " [E inherits __len__ from a non-final base]"
 
 
 def expr_text(e: dict[str, str]) -> str:
@@ -159,7 +169,7 @@ def source_key(rec: dict[str, Any]) -> str:
             out += " }"
         else:
             out += " " + stmt_text(t) + ";"
-    return out + " }"
+    return out + " }" + (VARIANT_NOTE if rec.get("variant") else "")
 
 
 class Rendered:
@@ -172,7 +182,12 @@ class Rendered:
 def render_module(recs: list[dict[str, Any]]) -> Rendered:
     """One module with the prelude, the helper functions the programs call and one function per program."""
     out = Rendered()
-    lines = PRELUDE_HEAD.rstrip("\n").split("\n")
+    variants = {rec.get("variant", 0) for rec in recs}
+    if len(variants) > 1:
+        raise MachineryError("mixed prelude variants in one module")
+    head = PRELUDE_HEAD_INHERITED if variants == {1} else PRELUDE_HEAD
+    out.nhead = len(head.rstrip("\n").split("\n"))
+    lines = head.rstrip("\n").split("\n")
     helpers: dict[str, list[str]] = {}
     for rec in recs:
         for t in rec["p"]:
@@ -383,7 +398,8 @@ def arg_classes(tx: Iterable[str]) -> list[str]:
 
 
 def run_cpython(text: str, rd: Rendered, recs: list[dict[str, Any]], mres: dict[str, Any],
-                accepted: list[bool]) -> tuple[list[dict[str, Any]], dict[str, int]]:
+                accepted: list[bool], only: set[int] | None = None, cond_bits: int = COND_BITS,
+                fuel: int = FUEL) -> tuple[list[dict[str, Any]], dict[str, int]]:
     """Run every accepted function on every input; return property violations (real mypy vs CPython)."""
     g: dict[str, Any] = {"__name__": "m"}
     exec(compile(text, "m.py", "exec"), g)
@@ -401,7 +417,7 @@ def run_cpython(text: str, rd: Rendered, recs: list[dict[str, Any]], mres: dict[
 
     def P(f: int, i: int, *vals: Any) -> None:
         state["hits"] += 1
-        if state["hits"] > FUEL:
+        if state["hits"] > fuel:
             raise _Fuel()
         if state["exp"] is None:
             return
@@ -429,6 +445,8 @@ def run_cpython(text: str, rd: Rendered, recs: list[dict[str, Any]], mres: dict[
     g["P"], g["cond"] = P, cond
     bad: list[dict[str, Any]] = []
     for fi, rec in enumerate(recs):
+        if only is not None and fi not in only:
+            continue
         fr = mres["funcs"][fi]
         acc = accepted[fi]
         if acc:
@@ -471,7 +489,7 @@ def run_cpython(text: str, rd: Rendered, recs: list[dict[str, Any]], mres: dict[
                     pass
                 stats["probe_hits"] += state["hits"]
                 used = state["ncond"]
-                for j in range(len(bits), min(used, COND_BITS)):
+                for j in range(len(bits), min(used, cond_bits)):
                     work.append(bits + [False] * (j - len(bits)) + [True])
                 if outcome is not None:
                     failing = True
@@ -566,14 +584,25 @@ def check_chunk(job: tuple[int, list[dict[str, Any]], bool]) -> dict[str, Any]:
             why = "errors at %s, spec %s (%s)" % (sorted(fr["errs"]), sorted(spec_errs(rec)),
                                                    "; ".join(m for ms in fr["errs"].values() for m in ms)[:200])
         if why:
-            drift.append({"prog": source_key(rec), "why": why})
+            drift.append({"prog": source_key(rec), "why": why, "fi": fi, "accepted_by_mypy": accepted[fi]})
     t0 = time.time()
     bad, stats = run_cpython(rd.text, rd, recs, mres, accepted)
+    # a drifting program that mypy accepts is where unsoundness hides (mypy narrower than the specification): run it
+    # again, against mypy's own revealed types, with a deeper tree of opaque conditions and more fuel
+    deep = {d["fi"] for d in drift if d["accepted_by_mypy"]} - {bd["fi"] for bd in bad}
+    if deep:
+        bad2, stats2 = run_cpython(rd.text, rd, recs, mres, accepted, only=deep, cond_bits=6, fuel=400)
+        bad += bad2
+        for d in drift:
+            if d["fi"] in deep:
+                d["deeper_executions"] = stats2["executions"]
+    for d in drift:
+        d["violates_property"] = any(bd["fi"] == d["fi"] for bd in bad)
     t_run = time.time() - t0
     for bd in bad:
         rec = recs[bd["fi"]]
         bd["prog"] = source_key(rec)
-        bd["rec"] = {"h": rec["h"], "p": rec["p"]}
+        bd["rec"] = {"h": rec["h"], "p": rec["p"], "variant": rec.get("variant", 0)}
     sample = None
     if cid == 0 and recs:
         fi = next((i for i, a in enumerate(accepted) if a and len(recs[i]["p"]) >= 3), 0)
@@ -649,13 +678,13 @@ def reductions(rec: dict[str, Any]) -> list[dict[str, Any]]:
             elif t["k"] in ("brk", "cnt") and "while" not in depth_loop:
                 ok = False
         if ok and q:
-            out.append({"h": rec["h"], "p": q})
+            out.append({"h": rec["h"], "p": q, "variant": rec.get("variant", 0)})
     return out
 
 
 def minimise(rec: dict[str, Any], kind: str) -> dict[str, Any]:
     """1-minimal failing program: no single reduction still fails (real mypy + CPython decide)."""
-    cur = {"h": rec["h"], "p": rec["p"]}
+    cur = {"h": rec["h"], "p": rec["p"], "variant": rec.get("variant", 0)}
     for _ in range(40):
         cands = reductions(cur)
         if not cands:
@@ -740,10 +769,10 @@ def programs_of(r: Any) -> list[dict[str, Any]]:
 
 
 # =========================================================================== real CLI, real typeshed (A-fixtures)
-def cli_crosscheck(recs: list[dict[str, Any]], root: str) -> dict[str, Any]:
+def cli_crosscheck(recs: list[dict[str, Any]], root: str, sub: str = "cli") -> dict[str, Any]:
     """The same module through `python -m mypy` with the real typeshed: diagnostics must be identical."""
     rd = render_module(recs)
-    d = os.path.join(root, "cli")
+    d = os.path.join(root, sub)
     os.makedirs(d, exist_ok=True)
     shutil.copy(os.path.join(root, "builtins.pyi"), os.path.join(d, "builtins.pyi"))
     mres = run_mypy(rd.text, d, rd)
@@ -787,7 +816,8 @@ def cli_crosscheck(recs: list[dict[str, Any]], root: str) -> dict[str, Any]:
 # =========================================================================== main
 def tlc_plan(tier: str, seed: int) -> list[dict[str, Any]]:
     plan: list[dict[str, Any]] = []
-    mc = ["S1", "S2", "L0", "P0"] if tier == "quick" else ["S1t", "S2t", "L1", "E1", "C1", "R1", "P1"]
+    mc = (["S1", "S2", "L0", "P0", "N0", "E0"] if tier == "quick"
+          else ["S1t", "S2t", "L1", "E1", "C1", "R1", "P1", "N0t", "E0t"])
     plan.append({"name": "T0", "kind": "gen", "cfg": "Gen_FlowTyping_T0.cfg", "workers": 3})
     plan.append({"name": "T0-pinned", "kind": "finding", "cfg": "Finding_FlowTyping_T0.cfg", "workers": 3})
     if tier == "thorough":
@@ -836,7 +866,7 @@ def main(argv: list[str]) -> int:
         return r
 
     t0 = time.time()
-    with ThreadPoolExecutor(3 if tier == "quick" else 4) as ex:
+    with ThreadPoolExecutor(4) as ex:
         results = list(ex.map(run_one, plan))
     t_tlc = time.time() - t0
     states = transitions = 0
@@ -906,17 +936,24 @@ def main(argv: list[str]) -> int:
     print("TLC: %d states, %d programs emitted (%d distinct), %.0fs" % (states, len(progs), len(recs_all), t_tlc), flush=True)
 
     # ---- 2. replay into real mypy + CPython
-    jobs = [(i, recs_all[c:c + CHUNK], True) for i, c in enumerate(range(0, len(recs_all), CHUNK))]
+    recs_plain = [rec for rec in recs_all if not mentions_E(rec)]
+    recs_E = [rec for rec in recs_all if mentions_E(rec)]
+    recs_E2 = [dict(rec, variant=1) for rec in recs_E]     # same programs, E inherits __len__ from a non-final base
+    groups = [recs_plain[c:c + CHUNK] for c in range(0, len(recs_plain), CHUNK)]
+    groups += [recs_E[c:c + CHUNK] for c in range(0, len(recs_E), CHUNK)]
+    groups += [recs_E2[c:c + CHUNK] for c in range(0, len(recs_E2), CHUNK)]
+    jobs = [(i, g, True) for i, g in enumerate(groups)]
     t0 = time.time()
     with ctx.Pool(NPROC, initializer=_init_worker, initargs=(root,)) as pool:
-        cli_async = pool.apply_async(cli_crosscheck, (recs_all[:CHUNK], root))
+        cli_async = pool.apply_async(cli_crosscheck, (recs_plain[:CHUNK], root))
+        cli2_async = pool.apply_async(cli_crosscheck, (recs_E2[:CHUNK], root, "cli2"))
         out = pool.map(check_chunk, jobs, chunksize=1)
         # ---- 3. perturbations of accepted programs
         accepted_recs = [rec for res in out for rec, a in zip(jobs[res["cid"]][1], res["acc_flags"])
                          if a and not mentions_E(rec)]
         accepted_recs.sort(key=source_key)
         rnd.shuffle(accepted_recs)
-        base = accepted_recs[: (100 if tier == "quick" else 800)]
+        base = accepted_recs[: (80 if tier == "quick" else 800)]
         pert: dict[str, dict[str, Any]] = {}
         for rec in base:
             for c in perturbations(rec):
@@ -926,6 +963,9 @@ def main(argv: list[str]) -> int:
         pjobs = [(10 ** 6 + i, precs[c:c + CHUNK], False) for i, c in enumerate(range(0, len(precs), CHUNK))]
         pout = pool.map(check_chunk, pjobs, chunksize=1)
         cli = cli_async.get()
+        cli2 = cli2_async.get()
+        cli = {"functions": cli["functions"] + cli2["functions"], "probes_compared": cli["probes_compared"] + cli2["probes_compared"],
+               "differences": cli["differences"] + cli2["differences"], "n_diff": cli["n_diff"] + cli2["n_diff"]}
     t_replay = time.time() - t0
 
     # ---- 4. verdicts
@@ -964,10 +1004,14 @@ def main(argv: list[str]) -> int:
             continue
         seen_min.add(key)
         v.violation(key, {"rec": mrec, "arg": a["arg"], "conds": a["conds"], "kind": a["kind"], "found_as": bd["prog"],
-                          "python": render_module([mrec]).text.split("\n")[13:]},
+                          "python": render_module([mrec]).text.split("\n")},
                     "mypy accepts `%s` but under CPython (x=%s, cond()=%s): %s" % (prog, a["arg"], a["conds"], a["what"]))
     for d in drift[:10]:
-        print("MODEL-DRIFT: %s -- %s" % (d["prog"], d["why"]), flush=True)
+        print("MODEL-DRIFT: %s -- %s (%s)" % (d["prog"], d["why"],
+              "mypy rejects the program" if not d["accepted_by_mypy"] else
+              "VIOLATES the property under CPython, reported above" if d["violates_property"] else
+              "mypy accepts it; CPython against mypy's own types incl. %d deeper executions: no violation" % d.get("deeper_executions", 0)),
+              flush=True)
     # machinery complaints (binding broken / vacuous); a violation found above takes precedence
     complaints: list[str] = []
     if model_finding and not model_finding.get("violated"):
@@ -991,8 +1035,10 @@ def main(argv: list[str]) -> int:
 
     coverage = {
         "states": states, "transitions": transitions,
-        "traces_validated_against_impl": len(recs_all) - len(drift),
+        "traces_validated_against_impl": len(recs_all) - len({d["prog"].replace(VARIANT_NOTE, "") for d in drift}),
         "programs_replayed": len(recs_all),
+        "modules_checked_by_mypy": len(jobs),
+        "E_programs_replayed_in_both_class_variants": len(recs_E),
         "programs_accepted_by_mypy": n_acc,
         "probe_points_compared_with_gamma": n_probe,
         "model_drift": {"programs": len(drift), "samples": drift[:5]},
